@@ -127,8 +127,10 @@ func VerifC14Events(s *Session) int { return s.m.count() }
 //   point 1: handle, Debug "Received response for Job" - after the read-locked lookup, before
 //            the write-locked finish;
 //   point 2: Task -> write -> queue, Trace "Adding Packet ... to queue" - after the read-locked
-//            duplicate check, before the write-locked insert.
-// verifC14Log forwards exactly these two calls to a hook of the harness, which may block there.
+//            duplicate check, before the write-locked insert;
+//   point 3 (lock HELD): handle -> handleInfoResult, Debug "... changed profile/time" - inside the
+//            write-locked section, after Result / Status are written, before delete / close(done).
+// verifC14Log forwards exactly these calls to a hook of the harness, which may block there.
 type verifC14Log struct {
 	logx.Log
 	hook func(point int)
@@ -137,6 +139,11 @@ type verifC14Log struct {
 func (l *verifC14Log) Debug(m string, _ ...interface{}) {
 	if strings.Contains(m, "Received response for Job") {
 		l.hook(1)
+	}
+	if strings.Contains(m, "changed profile/time") {
+		// point 3: inside handle's write-locked section, in handleInfoResult (information jobs
+		// MvTime / MvProfile), after j.Result / j.Status are written, before delete and close(done)
+		l.hook(3)
 	}
 }
 func (l *verifC14Log) Trace(m string, _ ...interface{}) {
@@ -151,3 +158,15 @@ func VerifC14SessionHooked(hook func(point int)) *Session {
 	s.log = cout.New(&verifC14Log{Log: logx.NOP, hook: hook})
 	return s
 }
+
+// VerifC14TableRaw / VerifC14EntryRaw read the table WITHOUT taking the lock: for the harness
+// while it has parked a goroutine inside the write-locked section (point 3; nothing else runs).
+func VerifC14TableRaw(s *Session) []uint16 {
+	r := make([]uint16, 0, len(s.jobs))
+	for k := range s.jobs {
+		r = append(r, k)
+	}
+	sort.Slice(r, func(i, j int) bool { return r[i] < r[j] })
+	return r
+}
+func VerifC14EntryRaw(s *Session, i uint16) *Job { return s.jobs[i] }
